@@ -20,8 +20,8 @@ COL_TARGETS = ['area', 'Family_Name', 'identifier', 'x1', 'Zed', 'my col', '2nd'
 def plan(tier, seed):
   w = [{'witness': 'all'}]
   if tier == 'quick':
-    return w + [{'hseed': seed * 100003 + i, 'renames': 45} for i in range(15)]
-  return w + [{'hseed': seed * 100003 + 11000 + i, 'renames': 170} for i in range(47)]
+    return w + [{'hseed': seed * 100003 + i, 'renames': 45, 'crashers': i % 7 == 6} for i in range(15)]
+  return w + [{'hseed': seed * 100003 + 11000 + i, 'renames': 170, 'crashers': i % 8 == 7} for i in range(47)]
 
 
 # ------------------------------------------------------------------------------------------------
@@ -117,8 +117,8 @@ class State(object):
 # ------------------------------------------------------------------------------------------------
 class Checked(object):
   """Formulas for the validating paths: drawn until the engine's predicate parser accepts the text."""
-  def __init__(self, p, gen):
-    self.p, self.gen = p, gen
+  def __init__(self, p, gen, crashers=False):
+    self.p, self.gen, self.crashers = p, gen, crashers
 
   def formula(self, cols):
     for _ in range(12):
@@ -131,11 +131,26 @@ class Checked(object):
     return 'rec.%s == 1' % cols[0], 'plain'
 
   def unparsable(self, cols):
-    return self.gen.unparsable(cols)
+    """A text the predicate parser refuses. Texts that are no Python at all (on which the repository's own
+    codebuilder.get_dollar_replacer raises) are the trigger of the open finding unparsable_condition_blocks_renames:
+    they are only drawn in the shards that are about that finding."""
+    import codebuilder
+    for _ in range(40):
+      text = self.gen.unparsable(cols)
+      try:
+        codebuilder.get_dollar_replacer(text)
+        crasher = False
+      except SyntaxError:
+        crasher = True
+      except Exception:      # pylint: disable=broad-except
+        continue
+      if crasher == self.crashers or (self.crashers and self.gen.r.random() < 0.3):
+        return text
+    return '+ rec.%s == 1' % cols[0]
 
 
-def build(p, rnd, gen):
-  gen = Checked(p, gen)
+def build(p, rnd, gen, crashers=False):
+  gen = Checked(p, gen, crashers)
   p.init_doc()
   p.apply([['AddTable', 'Schools', [{'id': c, 'type': t, 'isFormula': False} for c, t in S_COLS]]])
   p.apply([['AddTable', 'Students', [{'id': c, 'type': t, 'isFormula': False} for c, t in T_COLS]]])
@@ -181,9 +196,9 @@ def build(p, rnd, gen):
   p.apply(acts)
 
 
-def refresh_some(p, rnd, gen, st):
+def refresh_some(p, rnd, gen, st, crashers=False):
   """Replace a few formulas by fresh ones over the current ids (keeps the positions populated after renames)."""
-  gen = Checked(p, gen)
+  gen = Checked(p, gen, crashers)
   cols = st.col_ids()
   acts = []
   for key, kind, text, parsed, ctx, rest in st.holders():
@@ -337,20 +352,32 @@ def check_step(acc, p, st0, st1, action, detail, cache):
   return ok, nreq_total, touched
 
 
-def run_doc(acc, hseed, nrenames):
+def run_doc(acc, hseed, nrenames, crashers=False):
   rnd = random.Random(hseed)
   gen = G.PredGen(rnd)
   cache = {}
   with EngineProc(timeout=60.0) as p:
-    build(p, rnd, gen)
+    build(p, rnd, gen, crashers)
     acc.count('documents')
+    if crashers:
+      acc.count('documents_with_syntax_error_conditions')
     for step in range(nrenames):
       st0 = State(snapshot.take(p))
       if step % 3 == 2:
-        refresh_some(p, rnd, gen, st0)
+        refresh_some(p, rnd, gen, st0, crashers)
         st0 = State(snapshot.take(p))
       refs = [r for r, (t, c) in st0.cols.items() if c != 'manualSort']
-      ref = rnd.choice(refs)
+      # prefer columns that some formula mentions in a position that must follow the rename
+      hot = set()
+      for h in st0.holders():
+        try:
+          tree = L.read(h[2])
+        except (SyntaxError, Unclassified, ValueError):
+          continue
+        for r_ in refs:
+          if L.mentions_required(tree, h[4], {st0.cols[r_]: '#'}):
+            hot.add(r_)
+      ref = rnd.choice(sorted(hot)) if hot and rnd.random() < 0.7 else rnd.choice(refs)
       t, c = st0.cols[ref]
       target = rnd.choice(COL_TARGETS) if rnd.random() < 0.8 else rnd.choice(st0.col_ids())
       path = rnd.choice(['RenameColumn', 'RenameColumn', 'meta_colId', 'meta_label', 'ModifyColumn_label', 'bulk_colId'])
@@ -369,7 +396,14 @@ def run_doc(acc, hseed, nrenames):
       acc.seen('paths', path)
       reply, err = p.try_apply([action])
       if err is not None:
-        acc.violation('rename_raised', 'rename %r raised %s' % (action, err.text[:300]), detail)
+        # open finding: a predicate formula that is no Python at all makes process_renames raise
+        bad = [h[2] for h in st0.holders() if not engine_parses(p, h[2], cache)[0]]
+        if err.cls in ('SyntaxError', 'IndentationError', 'TabError') and bad:
+          acc.count('known.unparsable_condition_blocks_renames')
+          acc.violation('unparsable_condition_blocks_renames', 'rename %r raised %s while the document holds the unparsable '
+                        'condition(s) %r' % (action, err.text[:120], bad[:3]), detail)
+        else:
+          acc.violation('rename_raised', 'rename %r raised %s' % (action, err.text[:300]), detail)
         acc.case(None)
         return
       st1 = State(snapshot.take(p))
@@ -389,4 +423,4 @@ def run_shard(spec, acc):
   if spec.get('witness'):
     from props import C17_witness
     return C17_witness.run(acc)
-  run_doc(acc, spec['hseed'], spec['renames'])
+  run_doc(acc, spec['hseed'], spec['renames'], crashers=bool(spec.get('crashers')))
